@@ -56,6 +56,8 @@ func (o *Operations) Restore(
 
 	reader, err := o.backend.GetReader()
 	if err != nil {
+		_ = o.backend.CloseReader() // A failed GetReader leaves the drive locked
+
 		return err
 	}
 	defer o.backend.CloseReader()
